@@ -16,6 +16,7 @@ Pipeline
   4. TLC judges every recorded trace: conformance to ServeStart (reject = drift) and the clauses on the recorded
      events (false = VIOLATION).
 """
+import dataclasses
 import io
 import logging
 import re
@@ -59,24 +60,132 @@ def _S(xs) -> Raw:
     return Raw("{" + ", ".join(f'"{x}"' for x in xs) + "}")
 
 
-def _consts(reqs, pipes, unixes, maxreqs, modes, variants=("design",), sym=False) -> dict:
+def _consts(reqs, pipes, unixes, maxreqs, modes, variants=("design",), sym=False, shms=()) -> dict:
     return {"Reqs": ModelValues(*reqs) if sym else _S(reqs), "PipeSrvs": _S(pipes), "UnixSrvs": _S(unixes),
-            "MaxReqs": set(maxreqs), "HookModes": _S(modes), "Variants": _S(variants)}
+            "ShmSrvs": _S(shms), "MaxReqs": set(maxreqs), "HookModes": _S(modes), "Variants": _S(variants)}
 
 
 # ---------------------------------------------------------------------------------------------- real world
+import pyarrow as pa  # noqa: E402
+from vgi_rpc.rpc import (AnnotatedBatch, CallContext, ExchangeState, OutputCollector, RpcError,  # noqa: E402
+                         Stream)
+
+INP = pa.schema([pa.field("a", pa.int64())])
+OUT = pa.schema([pa.field("v", pa.int64())])
+_CUR: list = [None]          # the World whose threads are running (stream state objects are rebuilt from tokens)
+
+
+@dataclasses.dataclass
+class XState(ExchangeState):
+    n: int = 0
+
+    def exchange(self, input: AnnotatedBatch, out: OutputCollector, ctx: CallContext) -> None:
+        if _CUR[0] is not None:
+            _CUR[0].ev(e="Dispatch", what="process")
+        self.n += 1
+        out.emit_pydict({"v": [self.n]})
+
+
 class Svc(Protocol):
     def u(self, x: int) -> int: ...
+    def x(self) -> Stream[ExchangeState]: ...
 
 
 class HookFailure(RuntimeError):
     pass
 
 
+class HookFailureRpc(RpcError):
+    def __init__(self, msg: str) -> None:
+        super().__init__("HookFailureRpc", msg, "")
+
+
+class HookFailureOS(OSError):
+    pass
+
+
+EXC = {"runtime": HookFailure, "rpc": HookFailureRpc, "os": HookFailureOS}
+HOOK_FAILURES = (HookFailure, HookFailureRpc, HookFailureOS)
+TOKEN_KEY = b"c42-shared-token-key-0123456789ab"[:32]
+ROUTES = ("u", "init", "exchange")
+_DONOR: dict = {}
+_SHM: list = []
+
+
+def _plain_impl():
+    class DonorImpl:
+        def u(self, x: int) -> int:
+            return x + 1
+
+        def x(self) -> Stream[XState]:
+            return Stream(output_schema=OUT, state=XState(), input_schema=INP)
+    return DonorImpl()
+
+
+def donor_bodies() -> dict:
+    """Raw bodies + headers of POST /x/init and POST /x/exchange recorded from the real client against ANOTHER
+    worker sharing the token key: the continuation then arrives as the very first request of a cold worker."""
+    if _DONOR:
+        return _DONOR
+    from vgi_rpc.http import http_connect
+    from vgi_rpc.http._testing import make_sync_client
+    from vgi_rpc.rpc import RpcServer
+
+    class Rec:
+        def __init__(self, c) -> None:
+            self._c, self.posts = c, []
+
+        def post(self, url, *, content, headers):
+            r = self._c.post(url, content=content, headers=headers)
+            self.posts.append((url, bytes(content), dict(headers)))
+            return r
+
+        def __getattr__(self, k):
+            return getattr(self._c, k)
+
+    rec = Rec(make_sync_client(RpcServer(Svc, _plain_impl()), token_key=TOKEN_KEY, enable_landing_page=False,
+                               enable_describe_page=False, enable_not_found_page=False))
+    with http_connect(Svc, client=rec) as proxy:
+        st = proxy.x()
+        st.exchange(AnnotatedBatch.from_pydict({"a": [1]}, schema=INP))
+        st.close()
+    for url, body, hdrs in rec.posts:
+        if url.endswith("/init"):
+            _DONOR["init"] = (url, body, hdrs)
+        elif url.endswith("/exchange") and "exchange" not in _DONOR:
+            _DONOR["exchange"] = (url, body, hdrs)
+    if set(_DONOR) != {"init", "exchange"}:
+        raise MachineryError(f"could not record stream requests from the donor worker: {sorted(_DONOR)}")
+    return _DONOR
+
+
+def shm_segment():
+    if not _SHM:
+        import atexit
+
+        from vgi_rpc.shm import ShmSegment
+
+        seg = ShmSegment.create(1024 * 1024)
+        _SHM.append(seg)
+
+        def _cleanup() -> None:
+            try:
+                seg.unlink()
+            except Exception:  # noqa: BLE001
+                pass
+            try:
+                seg.close()
+            except Exception:  # noqa: BLE001
+                pass
+        atexit.register(_cleanup)
+    return _SHM[0]
+
+
 class World:
     """A real RpcServer (shim transport lock) + the real HTTP app + logical threads issuing requests / serve()."""
 
-    def __init__(self, mode: str, max_req: int, reqs: list[str], pipes: list[str], unixes: list[str]) -> None:
+    def __init__(self, mode: str, max_req: int, reqs: list[str], pipes: list[str], unixes: list[str],
+                 shms: list[str] | tuple = (), routes: dict | None = None, exc: str = "runtime") -> None:
         import vgi_rpc.rpc._server as srvmod
         from vgi_rpc.http._testing import make_sync_client
         from vgi_rpc.rpc import RpcServer
@@ -85,8 +194,11 @@ class World:
         self.events: list[dict] = []
         self.mode = mode
         self.max_req = max_req
-        self.reqs, self.pipes, self.unixes = reqs, pipes, unixes
-        self.threads = reqs + pipes + unixes
+        self.reqs, self.pipes, self.unixes, self.shms = reqs, pipes, unixes, list(shms)
+        self.threads = reqs + pipes + unixes + self.shms
+        self.routes = routes or {}          # HTTP thread -> route of its i-th request ("u" | "init" | "exchange")
+        self.exc = exc
+        self.cur_bind: dict[str, str] = {}  # thread -> binding of the op it is running
         self.calls = 0
         self.executed: list[str] = []
         w = self
@@ -96,16 +208,21 @@ class World:
                 w.calls += 1
                 n = w.calls
                 k = str(getattr(kind, "value", kind))
-                w.ev(e="HookStart", k=k)
+                bk = w.cur_bind.get(sched._me() or "main", k)
+                w.ev(e="HookStart", k=k, bk=bk)
                 sched.yield_point("hook")
-                if w.mode == "always" or (w.mode == "once" and n == 1):
-                    w.ev(e="HookEnd", k=k, ok=False)
-                    raise HookFailure(f"on_serve_start failure #{n}")
-                w.ev(e="HookEnd", k=k, ok=True)
+                if w.mode == "always" or (w.mode == "once" and n == 1) or (w.mode == "second" and n == 2):
+                    w.ev(e="HookEnd", k=k, bk=bk, ok=False)
+                    raise EXC[w.exc](f"on_serve_start failure #{n}")
+                w.ev(e="HookEnd", k=k, bk=bk, ok=True)
 
             def u(self, x: int) -> int:
-                w.ev(e="Dispatch")
+                w.ev(e="Dispatch", what="u")
                 return x + 1
+
+            def x(self) -> Stream[XState]:
+                w.ev(e="Dispatch", what="x-init")
+                return Stream(output_schema=OUT, state=XState(), input_schema=INP)
 
         orig = getattr(srvmod, "threading", None)
         if orig is not None:
@@ -116,20 +233,27 @@ class World:
             if orig is not None:
                 srvmod.threading = orig
         self.shimmed = bool(sched.locks)
-        self.client = make_sync_client(self.server, enable_landing_page=False, enable_describe_page=False,
-                                       enable_not_found_page=False)
+        self.client = make_sync_client(self.server, token_key=TOKEN_KEY, enable_landing_page=False,
+                                       enable_describe_page=False, enable_not_found_page=False)
         self.body = world.raw_request(b"u", self.server.methods["u"].params_schema, {"x": 1})
+        self.donor = donor_bodies()
+        _CUR[0] = self
         for t in reqs:
             sched.spawn(t, self._req_body, t)
         for t in pipes:
             sched.spawn(t, self._srv_body, t, "pipe")
         for t in unixes:
             sched.spawn(t, self._srv_body, t, "unix")
+        for t in self.shms:
+            sched.spawn(t, self._srv_body, t, "pipe+shm")
 
     # -- events
     def binding(self) -> str:
         k = self.server.transport_kind
-        return "none" if k is None else str(getattr(k, "value", k))
+        if k is None:
+            return "none"
+        caps = getattr(self.server, "transport_capabilities", frozenset()) or frozenset()
+        return str(getattr(k, "value", k)) + ("+shm" if "shm" in caps else "")
 
     def ev(self, **k) -> None:
         k.setdefault("t", self.sched._me() or "main")
@@ -141,19 +265,26 @@ class World:
         for i in range(self.max_req):
             if i:
                 self.sched.yield_point("next")
-            self.ev(e="Begin", k="http")
+            route = (self.routes.get(t) or ["u"] * self.max_req)[i]
+            self.cur_bind[t] = "http"
+            self.ev(e="Begin", k="http", route=route)
             n0 = len(self.events)
             try:
-                r = self.client.post("/u", content=self.body, headers={"Content-Type": world.ARROW_CT})
+                if route == "u":
+                    r = self.client.post("/u", content=self.body, headers={"Content-Type": world.ARROW_CT})
+                else:
+                    url, body, hdrs = self.donor[route]
+                    r = self.client.post(url, content=body, headers=hdrs)
                 status = r.status_code
-            except HookFailure:
+            except HOOK_FAILURES:
                 status = 500           # a WSGI server answers 500 when the app raises
             disp = any(e["e"] == "Dispatch" and e["t"] == t for e in self.events[n0:])
             self.ev(e="End", res="dispatched" if (status == 200 and disp) else "failed", status=status)
 
     def _srv_body(self, t: str, kind: str) -> None:
-        from vgi_rpc.rpc._transport import PipeTransport, UnixTransport
+        from vgi_rpc.rpc._transport import PipeTransport, ShmPipeTransport, UnixTransport
 
+        self.cur_bind[t] = kind
         self.ev(e="Begin", k=kind)
         n0 = len(self.events)
         a = b = None
@@ -161,6 +292,8 @@ class World:
             if kind == "pipe":
                 out = io.BytesIO()
                 tr = PipeTransport(io.BytesIO(self.body), out)
+            elif kind == "pipe+shm":
+                tr = ShmPipeTransport(PipeTransport(io.BytesIO(self.body), io.BytesIO()), shm_segment())
             else:
                 a, b = socket.socketpair()
                 a.sendall(self.body)
@@ -169,7 +302,7 @@ class World:
             try:
                 self.server.serve(tr)
                 failed = False
-            except HookFailure:
+            except HOOK_FAILURES:
                 failed = True
         finally:
             for s in (a, b):
@@ -208,19 +341,36 @@ class World:
     def close(self) -> None:
         if any(t not in self.sched.done for t in self.threads):
             self.sched.release_all()
+        if _CUR[0] is self:
+            _CUR[0] = None
 
     def record(self) -> dict:
         evs = []
         for e in self.events:
             e = dict(e)
             e.pop("status", None)
+            e.pop("what", None)
             evs.append(e)
         return {"mode": self.mode, "maxReq": self.max_req, "ev": evs}
 
 
-def replay_path(mode: str, max_req: int, reqs, pipes, unixes, beh: list[dict]):
-    """Force one TLC path onto the real server.  Returns (record, drift | None)."""
-    w = World(mode, max_req, reqs, pipes, unixes)
+def mk_cfg(mode, max_req, reqs, pipes=(), unixes=(), shms=(), routes=None, exc="runtime") -> dict:
+    return {"mode": mode, "maxReq": max_req, "reqs": list(reqs), "pipes": list(pipes), "unixes": list(unixes),
+            "shms": list(shms), "routes": routes or {}, "exc": exc}
+
+
+def mk_world(cfg: dict) -> World:
+    return World(cfg["mode"], cfg["maxReq"], cfg["reqs"], cfg["pipes"], cfg["unixes"], cfg.get("shms", ()),
+                 cfg.get("routes") or {}, cfg.get("exc", "runtime"))
+
+
+def n_threads(cfg: dict) -> int:
+    return len(cfg["reqs"]) + len(cfg["pipes"]) + len(cfg["unixes"]) + len(cfg.get("shms", ()))
+
+
+def replay_path(cfg: dict, beh: list[dict]):
+    """Force one TLC path onto the real server.  Returns (record, drift | None, executed)."""
+    w = mk_world(cfg)
     drift = None
     n = 0
     try:
@@ -255,7 +405,7 @@ def replay_path(mode: str, max_req: int, reqs, pipes, unixes, beh: list[dict]):
 
 
 def run_real_schedule(scn: dict, prefix: list[str], lenient: bool = False):
-    w = World(scn["mode"], scn["maxReq"], scn["reqs"], scn["pipes"], scn["unixes"])
+    w = mk_world(scn)
     decisions = []
     stuck = None
     try:
@@ -291,7 +441,7 @@ def run_real_schedule(scn: dict, prefix: list[str], lenient: bool = False):
 
 
 # ---------------------------------------------------------------------------------------------- driver
-ALLM = ("ok", "once", "always")
+ALLM = ("ok", "once", "second", "always")
 
 
 class _Quiet:
@@ -310,17 +460,15 @@ class _Quiet:
 
 
 def _judge_consts() -> dict:
-    return _consts(["r1", "r2", "r3"], ["s1", "s3"], ["s2"], (1, 2), ALLM)
+    return _consts(["r1", "r2", "r3"], ["s1", "s3"], ["s2"], (1, 2), ALLM, shms=["m1", "m2"])
 
 
 def _replay(ctx: Ctx, rec: dict, wd) -> None:
     """./check C42 --replay FILE : re-execute the recorded schedule on the real code and let TLC judge it again."""
     d, sig = rec["detail"], rec["sig"]
     cfg = d["config"]
-    scn = {"mode": cfg["mode"], "maxReq": cfg["maxReq"], "reqs": cfg["reqs"], "pipes": cfg["pipes"],
-           "unixes": cfg["unixes"], "pb": None}
     with _Quiet():
-        out, _ = run_real_schedule(scn, d["executed"], lenient=True)
+        out, _ = run_real_schedule(dict(cfg, pb=None), d["executed"], lenient=True)
     rec2 = out["record"]
     ctx.case(("replay", _tkey(rec2["ev"])), sample={"replayed_trace": rec2})
     verdicts, bad, inv_hits = judge_traces(ctx, wd, "ServeStartTrace", [rec2], _judge_consts(),
@@ -329,6 +477,16 @@ def _replay(ctx: Ctx, rec: dict, wd) -> None:
     for clause in bad.get(0, []):
         ctx.violation(clause, dict(sig, clause=clause), {"trace": rec2, "schedule": d["schedule"],
                                                          "executed": d["executed"], "config": cfg})
+
+
+def _pick_routes(rng, reqs, max_req, k: int) -> dict:
+    """Concretise the abstract HTTP requests of one path: every request gets a route; the first path-index
+    residues force 'a stream continuation / a stream init is the very first request of the worker'."""
+    forced = {0: "exchange", 1: "init", 2: "u"}.get(k % 6)
+    out = {}
+    for t in reqs:
+        out[t] = [forced if forced else rng.choice(ROUTES) for _ in range(max_req)]
+    return out
 
 
 def run(ctx: Ctx) -> None:
@@ -341,35 +499,45 @@ def run(ctx: Ctx) -> None:
         return
     ctx.rule = ("case = one execution of the real RpcServer + HTTP middleware (+ serve() calls) under one forced "
                 "schedule (a TLC path of ServeStart, or one real schedule of a scenario); non-trivial = distinct "
-                "(hook mode, requests per thread, event trace); clauses are judged by TLC on the recorded trace")
-    ctx.assume("a 'binding' is a maximal period during which RpcServer.transport_kind has one value; it is observed "
-               "by reading the public property at every recorded event and after every scheduler step",
+                "(hook mode, requests per thread, event trace incl. routes); clauses are judged by TLC on the "
+                "recorded trace.  Where the statement says 'transport-kind binding' the repository's documented "
+                "reading is used: a binding is the recorded (kind, capabilities) pair")
+    ctx.assume("a 'binding' is a maximal period during which (RpcServer.transport_kind, 'shm' in "
+               "transport_capabilities) has one value; it is observed by reading the public properties at every "
+               "recorded event and after every scheduler step",
                "'the next request runs it again': an HTTP request that begins while nothing is bound runs the hook "
                "itself unless a hook run succeeds while it is in flight",
-               "bindings that differ only in capabilities (shm) and the TCP kind are not exercised",
-               "bounds: <=3 HTTP threads x <=2 requests, <=2 serve() calls (pipe, unix)")
+               "every abstract HTTP request is concretised as a unary call, a stream init or a stream continuation "
+               "(token minted by another worker sharing the key, i.e. the continuation is the cold worker's first "
+               "request); hook failures are raised as RuntimeError / RpcError / OSError subclasses",
+               "the TCP kind and pre-fork processes are not exercised",
+               "bounds: <=3 HTTP threads x <=2 requests, <=3 serve() calls (pipe, unix, pipe+shm)")
     T = {}
     t0 = time.time()
     W = 2
+    R2, R3 = ["r1", "r2"], ["r1", "r2", "r3"]
+
+    def D(reqs, pipes=(), unixes=(), shms=(), maxreqs=(1,), how="all"):
+        return {"reqs": list(reqs), "pipes": list(pipes), "unixes": list(unixes), "shms": list(shms),
+                "maxreqs": tuple(maxreqs), "how": how}
+
     if quick:
-        mcs = [("mc-design-3req-2srv", _consts(["r1", "r2", "r3"], ["s1"], ["s2"], (1, 2), ALLM, sym=True)),
-               ("mc-variants", _consts(["r1", "r2"], ["s1"], [], (1, 2), ALLM, ["design"] + WRONG, sym=True))]
-        # (reqs, pipes, unixes, maxreqs, modes, mode)
-        dumps = [(["r1", "r2"], [], [], (1, 2), ALLM, "all"),
-                 (["r1", "r2"], ["s1"], [], (1,), ALLM, "all"),
-                 (["r1", "r2", "r3"], ["s1"], ["s2"], (1,), ALLM, "cover")]
+        mcs = [("mc-design-3req-3srv", _consts(R3, ["s1"], ["s2"], (1, 2), ALLM, sym=True, shms=["m1"])),
+               ("mc-variants", _consts(R2, ["s1"], [], (1, 2), ALLM, ["design"] + WRONG, sym=True))]
+        dumps = [D(R2, maxreqs=(1, 2)), D(R2, ["s1"]), D([], ["s1", "s3"]), D(["r1"], shms=["m1", "m2"]),
+                 D(["r1"], ["s1"], shms=["m1", "m2"], how="cover"), D(R3, ["s1"], ["s2"], how="cover")]
         n_random = 30
     else:
-        mcs = [("mc-design-3req-3srv", _consts(["r1", "r2", "r3"], ["s1", "s3"], ["s2"], (1, 2), ALLM, sym=True)),
-               ("mc-variants", _consts(["r1", "r2", "r3"], ["s1"], ["s2"], (1, 2), ALLM, ["design"] + WRONG, sym=True))]
-        dumps = [(["r1", "r2"], [], [], (1, 2), ALLM, "all"),
-                 (["r1", "r2"], ["s1"], [], (1,), ALLM, "all"),
-                 (["r1", "r2", "r3"], [], [], (1,), ALLM, "all"),
-                 (["r1", "r2"], ["s1"], [], (2,), ALLM, "cover"),
-                 (["r1", "r2"], ["s1"], ["s2"], (1,), ALLM, "cover"),
-                 (["r1", "r2", "r3"], ["s1"], ["s2"], (1, 2), ALLM, "cover"),
-                 (["r1", "r2"], ["s1", "s3"], ["s2"], (2,), ALLM, "cover")]
-        n_random = 300
+        mcs = [("mc-design-3req-4srv", _consts(R3, ["s1", "s3"], ["s2"], (1, 2), ALLM, sym=True, shms=["m1"])),
+               ("mc-design-2req-shm", _consts(R2, ["s1"], [], (1, 2), ALLM, sym=True, shms=["m1", "m2"])),
+               ("mc-variants", _consts(R3, ["s1"], ["s2"], (1, 2), ALLM, ["design"] + WRONG, sym=True))]
+        dumps = [D(R2, maxreqs=(1, 2)), D(R2, ["s1"]), D(R3), D([], ["s1", "s3"], ["s2"]),
+                 D(["r1"], shms=["m1", "m2"]), D(["r1"], ["s1"], shms=["m1", "m2"]),
+                 D(R2, ["s1"], maxreqs=(2,), how="cover"), D(R2, ["s1"], ["s2"], how="cover"),
+                 D(R2, ["s1"], shms=["m1", "m2"], how="cover"),
+                 D(R3, ["s1"], ["s2"], maxreqs=(1, 2), how="cover"),
+                 D(R2, ["s1", "s3"], ["s2"], maxreqs=(2,), how="cover")]
+        n_random = 250
 
     def mc_job(name, consts):
         cfg = render_cfg(constants=consts, invariants=MODEL_INVS, symmetry="Symmetry")
@@ -377,7 +545,8 @@ def run(ctx: Ctx) -> None:
                                coverage=True)
 
     def dump_job(k, d):
-        cfg = render_cfg(constants=_consts(*d[:5]), invariants=[f"Inv_{c}" for c in CLAUSES])
+        cfg = render_cfg(constants=_consts(d["reqs"], d["pipes"], d["unixes"], d["maxreqs"], ALLM, shms=d["shms"]),
+                         invariants=[f"Inv_{c}" for c in CLAUSES])
         return lambda: dump_graph(wd, "ServeStart", cfg, workers=W, name=f"ss{k}", timeout=1800)
 
     results = parallel_tlc([mc_job(n, c) for n, c in mcs] + [dump_job(k, d) for k, d in enumerate(dumps)], max_par=6)
@@ -406,10 +575,12 @@ def run(ctx: Ctx) -> None:
         stats = []
         complete_all = True
         for d, (r, g) in zip(dumps, graphs):
-            reqs, pipes, unixes, maxreqs, modes, how = d
-            ctx.add_tlc(f"graph-{len(reqs)}req-{len(pipes)}pipe-{len(unixes)}unix-maxreq{list(maxreqs)}", r)
+            for u in g.out:                      # TLC dumps an edge once per sub-action that generates it
+                g.out[u] = list(dict.fromkeys(g.out[u]))
+            name = "+".join(d["reqs"] + d["pipes"] + d["unixes"] + d["shms"])
+            ctx.add_tlc(f"graph-{name}-maxreq{list(d['maxreqs'])}", r)
             require_ok(r, "ServeStart graph dump")
-            if how == "all":
+            if d["how"] == "all":
                 paths, comp = g.all_paths(max_len=64, limit=50000)
                 complete_all = complete_all and comp
             else:
@@ -417,27 +588,27 @@ def run(ctx: Ctx) -> None:
                 paths += g.random_paths(ctx.rng, n_random, 64)
             nd = 0
             first = len(records)
-            for nodes, labs in paths:
+            for k, (nodes, labs) in enumerate(paths):
                 s0 = g.state(nodes[0])
-                rec, drift, executed = replay_path(s0["hookMode"], s0["maxReq"], reqs, pipes, unixes,
-                                                   g.path_to_behaviour(nodes, labs))
+                cfg = mk_cfg(s0["hookMode"], s0["maxReq"], d["reqs"], d["pipes"], d["unixes"], d["shms"],
+                             routes=_pick_routes(ctx.rng, d["reqs"], s0["maxReq"], k),
+                             exc=("runtime", "rpc", "os")[k % 3])
+                rec, drift, executed = replay_path(cfg, g.path_to_behaviour(nodes, labs))
                 ctx.case(("A", rec["mode"], rec["maxReq"], _tkey(rec["ev"])))
                 if drift is not None:
                     nd += 1
-                    ctx.drift.append({"level": "A", "threads": reqs + pipes + unixes, "mode": rec["mode"],
-                                      "schedule": labs, **drift})
+                    ctx.drift.append({"level": "A", "config": cfg, "schedule": labs, **drift})
                 if drift is not None and "schedule control unavailable" in str(drift.get("what", "")):
                     break                       # every further path would only repeat this
                 records.append(rec)
-                metas.append({"level": "A", "threads": len(reqs + pipes + unixes), "schedule": labs,
-                              "executed": executed, "py_drift": drift is not None,
-                              "config": {"mode": rec["mode"], "maxReq": rec["maxReq"], "reqs": reqs, "pipes": pipes,
-                                         "unixes": unixes}})
-            stats.append({"reqs": reqs, "pipe_srvs": pipes, "unix_srvs": unixes, "maxreqs": list(maxreqs), "how": how,
+                metas.append({"level": "A", "threads": n_threads(cfg), "schedule": labs, "executed": executed,
+                              "py_drift": drift is not None, "config": cfg})
+            stats.append({**{k: v for k, v in d.items() if k != "maxreqs"}, "maxreqs": list(d["maxreqs"]),
                           "graph_states": r.distinct, "graph_edges": g.n_edges, "paths_replayed": len(paths),
                           "drift": nd})
             if len(records) > first and len(ctx.samples) < 2:
-                ctx.sample({"level": "A", "tlc_path": metas[-1]["schedule"], "real_trace": records[-1]})
+                ctx.sample({"level": "A", "tlc_path": metas[-1]["schedule"], "config": metas[-1]["config"],
+                            "real_trace": records[-1]})
         ctx.extra["level_A"] = stats
         ctx.extra["level_A_all_paths_complete"] = complete_all
         T["level_A_replay"] = round(time.time() - t1, 1)
@@ -445,20 +616,27 @@ def run(ctx: Ctx) -> None:
         # ---------------- 3. Level B: all real schedules
         t2 = time.time()
         scns = []
+
+        def S(mode, max_req, reqs, pipes=(), unixes=(), shms=(), routes=None, exc="runtime", pb=None):
+            scns.append(dict(mk_cfg(mode, max_req, reqs, pipes, unixes, shms, routes, exc), pb=pb))
+
         for mode in ALLM:
-            scns.append({"mode": mode, "maxReq": 1, "reqs": ["r1", "r2"], "pipes": [], "unixes": [], "pb": None})
-            scns.append({"mode": mode, "maxReq": 2, "reqs": ["r1", "r2"], "pipes": [], "unixes": [], "pb": 2})
-            scns.append({"mode": mode, "maxReq": 1, "reqs": ["r1", "r2"], "pipes": ["s1"], "unixes": [],
-                         "pb": 2 if quick else None})
+            S(mode, 1, R2)
+            S(mode, 1, R2, routes={"r1": ["exchange"], "r2": ["u"]}, exc="rpc")
+            S(mode, 1, R2, routes={"r1": ["init"], "r2": ["exchange"]}, exc="os")
+            S(mode, 2, R2, pb=2, routes={"r1": ["u", "exchange"], "r2": ["exchange", "init"]})
+            S(mode, 1, R2, ["s1"], pb=2 if quick else None)
+            S(mode, 1, ["r1"], shms=["m1", "m2"], pb=2)
             if not quick:
-                scns.append({"mode": mode, "maxReq": 1, "reqs": ["r1", "r2", "r3"], "pipes": [], "unixes": [],
-                             "pb": 2})
-                scns.append({"mode": mode, "maxReq": 1, "reqs": ["r1", "r2"], "pipes": ["s1"], "unixes": ["s2"],
-                             "pb": 2})
+                S(mode, 1, R3, pb=2, routes={"r1": ["exchange"], "r2": ["init"], "r3": ["u"]})
+                S(mode, 1, R2, ["s1"], ["s2"], pb=2)
+                S(mode, 1, ["r1"], ["s1"], shms=["m1", "m2"], pb=2, exc="rpc")
+                S(mode, 1, [], ["s1", "s3"], ["s2"], pb=None)
         bstats = []
         b_complete = True
-        probe_w = World("ok", 1, ["r1"], [], [])
+        probe_w = mk_world(mk_cfg("ok", 1, ["r1"]))
         probe_w.finish()
+        probe_w.close()
         if not probe_w.shimmed:
             # the hook would park while holding a real lock and block every other thread for good
             ctx.drift.append({"level": "B", "what": "RpcServer transport lock is not a scheduler shim lock; "
@@ -467,9 +645,10 @@ def run(ctx: Ctx) -> None:
             b_complete = False
         for scn in scns:
             outs, comp, nexec = explore(lambda p, scn=scn: run_real_schedule(scn, p),
-                                        limit=150 if quick else 1500, preemption_bound=scn["pb"])
+                                        limit=150 if quick else 1000, preemption_bound=scn["pb"])
             b_complete = b_complete and comp
             na = 0
+            cfg = {k: v for k, v in scn.items() if k != "pb"}
             for o in outs:
                 ctx.case(("B", scn["mode"], scn["maxReq"], _tkey(o["record"]["ev"])))
                 anomaly = bool(o["stuck"] or o["errors"] or not o["shimmed"])
@@ -478,9 +657,8 @@ def run(ctx: Ctx) -> None:
                     ctx.drift.append({"level": "B", "scenario": scn, "schedule": o["schedule"], "stuck": o["stuck"],
                                       "errors": o["errors"], "shimmed": o["shimmed"]})
                 records.append(o["record"])
-                metas.append({"level": "B", "threads": len(scn["reqs"] + scn["pipes"] + scn["unixes"]),
-                              "schedule": o["schedule"], "executed": o["schedule"], "py_drift": anomaly,
-                              "config": {k: scn[k] for k in ("mode", "maxReq", "reqs", "pipes", "unixes")}})
+                metas.append({"level": "B", "threads": n_threads(cfg), "schedule": o["schedule"],
+                              "executed": o["schedule"], "py_drift": anomaly, "config": cfg})
             bstats.append({"scenario": scn, "real_schedules": nexec, "exhausted": comp, "anomalies": na})
             if outs and len(ctx.samples) < 4:
                 ctx.sample({"level": "B", "scenario": scn, "schedule": outs[-1]["schedule"],
@@ -490,7 +668,8 @@ def run(ctx: Ctx) -> None:
         # real schedule of the Level-B scenarios (under their preemption bound) was executed; "cover" graphs are
         # sampled (edge-class cover + random walks)
         ctx.exhaustive = complete_all and b_complete
-        ctx.extra["sampled_graphs"] = ["+".join(d[0] + d[1] + d[2]) for d in dumps if d[5] != "all"]
+        ctx.extra["sampled_graphs"] = ["+".join(d["reqs"] + d["pipes"] + d["unixes"] + d["shms"])
+                                       for d in dumps if d["how"] != "all"]
         T["level_B_dfs"] = round(time.time() - t2, 1)
     finally:
         quiet.__exit__()
@@ -535,12 +714,12 @@ def run(ctx: Ctx) -> None:
 def _edge_key(src, label, dst):
     act = label.split("(")[0]
     t = label[label.index('"') + 1:label.rindex('"')] if '"' in label else label
-    kind = "req" if t.startswith("r") else "srv"
+    kind = "req" if t.startswith("r") else ("shm" if t.startswith("m") else "srv")
     return (act, kind, src["hookMode"], src["maxReq"], src["bound"], dst["bound"], src["pc"][t], dst["pc"][t],
             len(src["inHook"]) if not isinstance(src["inHook"], (int, str)) else 0,
             sum(1 for p in src["pc"].values() if p == "want"), dst["outcome"][t])
 
 
 def _tkey(evs: list[dict]) -> str:
-    return "|".join(f"{e['e'][:2]}{e['t']}{e.get('k', '')}{e.get('ok', '')}{e.get('res', '')}{e.get('label', '')}"
-                    f"@{e['b']}" for e in evs)
+    return "|".join(f"{e['e'][:2]}{e['t']}{e.get('k', '')}{e.get('route', '')}{e.get('ok', '')}{e.get('res', '')}"
+                    f"{e.get('label', '')}@{e['b']}" for e in evs)
